@@ -13,6 +13,10 @@ func marshal(p *lang.Process, v any) ([]byte, error) {
 			break
 		}
 
+		if len(t) == 0 {
+			return yaml.Marshal([]any{})
+		}
+
 		var i int
 		table := make([]map[string]any, len(t)-1)
 		err := types.Table2Map(t, func(m map[string]any) error {
